@@ -606,6 +606,14 @@ class DilatedConnectionProtocol(Protocol):
     def disconnect(self):
         self.transport.loseConnection()
 
+    # Inbound throttles the whole L2 connection when a subchannel's
+    # application asks for a pause
+    def pauseProducing(self):
+        self.transport.pauseProducing()
+
+    def resumeProducing(self):
+        self.transport.resumeProducing()
+
     # select() called by Connector
 
     # called by Manager
